@@ -181,6 +181,11 @@ var Features = []Feature{
 		t.Cols = append(t.Cols, Col{Name: "i", Type: "integer", Gen: "id * 2", GenStored: true})
 	}},
 	// a generated column declared before ordinary columns: rebuild copies must skip it and keep going.
+	// a declared type atlas has no name for, spelled with an upper-case letter.
+	{Name: "col_ut_user_type_mixed_case", Apply: func(d *DB) {
+		t := d.Table("t")
+		t.Cols = append(t.Cols, Col{Name: "ut", Type: "Money"})
+	}},
 	// generated column whose declared type has a comma.
 	{Name: "col_gd_generated_decimal", Apply: func(d *DB) {
 		t := d.Table("t")
@@ -596,6 +601,10 @@ func fkActions(fk FK) string {
 }
 
 func hclType(t string) string {
+	// a type atlas does not know for SQLite is written as it is declared.
+	if t == "Money" {
+		return `sql("Money")`
+	}
 	return strings.ToLower(t)
 }
 
